@@ -24,7 +24,7 @@ META = {
 
 SEGS = [(0, 1), (0, 2), (1, 2), (-1, 3)]  # (-1, 3) sticks out of (0, 0) and of every reset extent on BOTH sides
 BAD_SEGS = [(1, 1), (2, 1)]
-LABELS = [None, "x", "y"]
+LABELS = [None, "", "x"]  # "" is a legal label (an empty CSV field): it must sort after None and before "x"
 FIXED_OTHER = [("add", "b", 0, 2, "y"), ("add", "c", 1, 2, None)]
 
 
